@@ -35,6 +35,8 @@ func init() {
 	cf := "internal/backends/compiler_wat/compile_func.go"
 	hp := "waroot/src/runtime/heap.wat.ws"
 	register(&Property{ID: "C11", Run: runC11, Mutants: []Mutant{
+		{Name: "a register created ahead of its definition owns a borrowed value again", File: "internal/backends/compiler_wat/compile_func.go", Old: "\t\t\t\tif g.module.RcDisable {\n\t\t\t\t\tif g.none_rc_registers == nil {\n\t\t\t\t\t\tg.none_rc_registers = make(map[wir.Value]bool)\n\t\t\t\t\t}\n\t\t\t\t\tg.none_rc_registers[v.value] = true\n\t\t\t\t\ts = append(s, v.value.EmitPopNoRelease()...)\n\t\t\t\t} else {\n\t\t\t\t\ts = append(s, v.value.EmitPop()...)\n\t\t\t\t}", New: "\t\t\t\ts = append(s, v.value.EmitPop()...)", Expect: "borrowed-value-register"},
+		{Name: "the copy helper releases an element it only borrowed", File: "internal/backends/compiler_wat/wir/value_slice.go", Old: "\t\tifs.False = append(ifs.False, t.Base.EmitLoadFromAddr(sp, 0)...)\n\t\tifs.False = append(ifs.False, item.EmitPop()...)", New: "\t\tifs.False = append(ifs.False, t.Base.EmitLoadFromAddrNoRetain(sp, 0)...)\n\t\tifs.False = append(ifs.False, item.EmitPopNoRelease()...)", Expect: "helper-local-ownership"},
 		{Name: "array IndexOf helper returns a borrowed element", File: "internal/backends/compiler_wat/wir/value_array.go", Old: "\t\tblock.Insts = append(block.Insts, x.ExtractByName(\"m\"+strconv.Itoa(i)).EmitPush()...)\n\t\tblock.Insts = append(block.Insts, ret.EmitPop()...)", New: "\t\tblock.Insts = append(block.Insts, x.ExtractByName(\"m\"+strconv.Itoa(i)).EmitPushNoRetain()...)\n\t\tblock.Insts = append(block.Insts, ret.EmitPopNoRelease()...)", Expect: "helper-local-ownership"},
 		{Name: "deferred interface call: scratch register released but not re-initialised", File: cf, Old: "\t\tinsts = append(insts, free_data.EmitRelease()...)\n\t\tinsts = append(insts, free_data.EmitInit()...)\n\n\t\tinsts = append(insts, closure.EmitPushNoRetain()...)", New: "\t\tinsts = append(insts, free_data.EmitRelease()...)\n\n\t\tinsts = append(insts, closure.EmitPushNoRetain()...)", Expect: "register-release-reinit :: functionGenerator.genMakeDefer"},
 		{Name: "comma-ok interface assertion forgets to retain", File: "waroot/src/runtime/interface.wat.ws", Old: "\t    local.get $d.b\n\t\tcall $runtime.Block.Retain\n\t    local.get $d.d\n\t    local.get $t\n\t    local.get $eq\n\t    i32.const 1", New: "\t    local.get $d.b\n\t    local.get $d.d\n\t    local.get $t\n\t    local.get $eq\n\t    i32.const 1", Expect: "commaok-sibling"},
@@ -51,6 +53,7 @@ func init() {
 		{Name: "allocation no longer zeroed", File: hp, Old: "\t\ti64.const 0\n\t\ti64.store\n", New: "\t\tdrop\n", Expect: "alloc-zeroed"},
 	}})
 	register(&Property{ID: "C12", Run: runC12, Mutants: []Mutant{
+		{Name: "results of a deferred interface call are popped and never released", File: "internal/backends/compiler_wat/compile_func.go", Old: "\t\t\t\twarp_fn.Insts = append(warp_fn.Insts, ret.EmitPop()...)\n\t\t\t\twarp_fn.Insts = append(warp_fn.Insts, ret.EmitRelease()...)", New: "\t\t\t\twarp_fn.Insts = append(warp_fn.Insts, ret.EmitPopNoRelease()...)", Nth: 1, Expect: "helper-local-ownership"},
 		{Name: "[]rune to string conversion retains the slice it only lends", File: "internal/backends/compiler_wat/wir/instruction_emitter.go", Old: "\t\t\tinsts = append(insts, x.EmitPushNoRetain()...)\n\t\t\tinsts = append(insts, wat.NewInstCall(\"runtime.stringFromRuneSlice\"))", New: "\t\t\tinsts = append(insts, x.EmitPush()...)\n\t\t\tinsts = append(insts, wat.NewInstCall(\"runtime.stringFromRuneSlice\"))", Expect: "runtime-call-args-borrowed"},
 		{Name: "RcEnable only on the indirectly embedded path", File: "internal/ssa/emit.go", Old: "\t\t\tv = f.emit(instr)\n\t\t\temitRcEnable(f, instr.Pos())\n\t\t\t// Load the field's value iff indirectly embedded.\n\t\t\tif isPointer(fld.Type()) {\n", New: "\t\t\tv = f.emit(instr)\n\t\t\t// Load the field's value iff indirectly embedded.\n\t\t\tif isPointer(fld.Type()) {\n\t\t\t\temitRcEnable(f, instr.Pos())\n", Expect: "rc-bracket-paired"},
 		{Name: "array IndexOf helper retains its result a second time", File: "internal/backends/compiler_wat/wir/value_array.go", Old: "f.Insts = append(f.Insts, ret.EmitPushNoRetain()...)", New: "f.Insts = append(f.Insts, ret.EmitPush()...)", Expect: "helper-local-ownership"},
@@ -93,7 +96,10 @@ func runC11(c *Ctx) {
 		return
 	}
 	c11Extra(c, p, bkp)
-	c12HelperLocals(c, p, wp, "borrow")
+	if bkp != nil {
+		c11BorrowedRegister(c, p, bkp)
+	}
+	c12HelperLocals(c, p, wp, "borrow", bkp)
 	info := wp.TypesInfo
 	const r1, r2, r3 = "leaf-pairing", "aggregate-delegation", "forwarder-purity"
 
@@ -109,30 +115,37 @@ func runC11(c *Ctx) {
 	const retain, release = "runtime.Block.Retain", "runtime.Block.Release"
 
 	// ---- (1) leaf
-	if s, loc, ok := get("aBlock.EmitPush"); ok {
-		ip, ir := s.index("push", ""), s.index("call", retain)
-		good := ip >= 0 && ir > ip && !hasCall(s, release)
-		// every return before the retain must be under the constant-0 guard
-		for i, e := range s.Events {
-			if e.Kind == "return" && i < ir {
-				g := strings.Join(e.Guards, "&&")
-				if !constZeroGuard(g) {
-					good = false
-				}
+	// EmitPush and EmitRelease are read per world (c11_leaf.go): constant or not, named "0" or not
+	leafWorld := func(name string, wantLive string, nilOK map[string]bool, okText, failText string) {
+		fd := FuncDecl(wp, name)
+		if fd == nil {
+			c.Undecided(r1, name, "", "function not found")
+			return
+		}
+		loc := p.Pos(fd.Pos())
+		ws, und := leafWorlds(wp, fd)
+		if und != "" {
+			c.Undecided(r1, name, loc, "not decided for "+und)
+			return
+		}
+		var bad []string
+		for _, w := range []string{"const 1", "variable named 0", "variable"} {
+			if got := leafTokens(ws[w]); got != wantLive {
+				bad = append(bad, "for a "+w+" it emits ["+got+"], want ["+wantLive+"]")
 			}
 		}
-		if ir >= 0 && len(s.Events[ir].Guards) > 0 {
-			good = false
+		if got := leafTokens(ws["const 0"]); !nilOK[got] {
+			bad = append(bad, "for the constant 0 it emits ["+got+"]")
 		}
-		c.Check(good, r1, "aBlock.EmitPush", loc, "push; Retain (skipped only for the constant 0)", "the retaining push of a block does not end in an unconditional call to "+retain+" after pushing the value (sequence: "+s.String()+"): a copy of the reference exists that the count does not know about, and the block is freed while the copy is live")
+		c.Check(len(bad) == 0, r1, name, loc, okText, failText+" ("+strings.Join(bad, "; ")+")")
 	}
+	leafWorld("aBlock.EmitPush", "push Retain", map[string]bool{"push": true, "push Retain": true}, "push; Retain (skipped only for the constant 0)",
+		"the retaining push of a block must push the value and then call "+retain+", for every value except the constant 0: otherwise a copy of the reference exists that the count does not know about, and the block is freed while the copy is live")
 	if s, loc, ok := get("aBlock.EmitPushNoRetain"); ok {
 		c.Check(s.index("push", "") >= 0 && !hasCall(s, retain) && !hasCall(s, release) && len(s.filter("deleg")) == 0, r1, "aBlock.EmitPushNoRetain", loc, "push only", "the no-retain push changes the reference count (sequence: "+s.String()+")")
 	}
-	if s, loc, ok := get("aBlock.EmitRelease"); ok {
-		ip, ir := s.index("push", ""), s.index("call", release)
-		c.Check(ip >= 0 && ir > ip && !hasCall(s, retain), r1, "aBlock.EmitRelease", loc, "push; Release", "release must push the value and call "+release+" (sequence: "+s.String()+")")
-	}
+	leafWorld("aBlock.EmitRelease", "push Release", map[string]bool{"": true, "push Release": true}, "push; Release (skipped only for the constant 0)",
+		"release must push the value and call "+release+", for every value except the constant 0: a reference that is dropped without a release keeps its block allocated for ever, and a release of anything else than the value frees a block that is live")
 	if s, loc, ok := get("aBlock.EmitPop"); ok {
 		id, ip := -1, s.index("pop", "")
 		for i, e := range s.Events {
@@ -346,32 +359,8 @@ func c11Runtime(c *Ctx, p *Prog) {
 	if rel, ok := m.ByName["$runtime.Block.Release"]; !ok {
 		c.Undecided(r4, "$runtime.Block.Release", "", "function not found in the runtime .wat.ws files")
 	} else {
-		good, detail := false, "no call to $runtime.HeapFree found"
-		for i, in := range rel.Body {
-			if in.Op == "call" && len(in.Args) > 0 && in.Args[0] == "$runtime.HeapFree" {
-				path := insPath(rel.Body, i)
-				good = len(path) == 1 && path[0] == "else"
-				detail = "enclosing constructs: " + strings.Join(path, " > ")
-				// the `if` of that else must test the decremented count: the instruction before the if is local.get of the variable set from (load; const 1; sub)
-			}
-		}
-		// the if condition: local.get $X where $X was set by i32.load ; i32.const 1 ; i32.sub ; local.set $X
-		cntOK := false
-		for i := 3; i < len(rel.Body); i++ {
-			b := rel.Body
-			if b[i].Op == "local.set" && b[i-1].Op == "i32.sub" && b[i-2].Op == "i32.const" && len(b[i-2].Args) > 0 && b[i-2].Args[0] == "1" && b[i-3].Op == "i32.load" {
-				v := ""
-				if len(b[i].Args) > 0 {
-					v = b[i].Args[0]
-				}
-				for k := i + 1; k+1 < len(b); k++ {
-					if b[k].Op == "local.get" && len(b[k].Args) > 0 && b[k].Args[0] == v && b[k+1].Op == "if" && b[k+1].Depth == 0 {
-						cntOK = true
-					}
-				}
-			}
-		}
-		c.Check(good && cntOK, r4, "$runtime.Block.Release: free only when the count reaches zero", fmt.Sprintf("%s:%d", rel.File, rel.Line), "HeapFree in the else arm of `if (count-1)`", "$runtime.Block.Release must call $runtime.HeapFree only in the arm taken when the decremented reference count is zero ("+detail+"): otherwise a block with remaining references is handed back to the allocator")
+		good, detail := c11ReleaseDiscipline(m, rel)
+		c.Check(good, r4, "$runtime.Block.Release: free only when the count reaches zero", fmt.Sprintf("%s:%d", rel.File, rel.Line), "HeapFree in the else arm of `if (count-1)`", "$runtime.Block.Release must call $runtime.HeapFree only in the arm taken when the decremented reference count is zero ("+detail+"): otherwise a block with remaining references is handed back to the allocator")
 	}
 	// the generator never emits the raw frees
 	bad := []string{}
@@ -421,7 +410,7 @@ func runC12(c *Ctx) {
 		return
 	}
 	const r1, r2, r3, r4 = "epilogue-release", "overwrite-release", "onfree-completeness", "release-recursion"
-	c12HelperLocals(c, p, wp, "leak")
+	c12HelperLocals(c, p, wp, "leak", bk)
 	c12RuntimeArgs(c, p, wp, bk)
 	c12RcBrackets(c, p, p.Pkg("internal/ssa"))
 	// (1)
@@ -443,11 +432,12 @@ func runC12(c *Ctx) {
 		if irel < 0 {
 			probs = append(probs, "no EmitRelease over g.registers")
 		} else {
-			gs := s.Events[irel].Guards
-			okGuard := len(gs) == 1 && strings.Contains(gs[0], "none_rc_registers")
-			if !okGuard {
-				probs = append(probs, "the release is guarded by "+strings.Join(gs, " && ")+"; only membership in the no-RC set may exempt a register")
+			// which registers are released: one iteration of the loop per world (c12_epilogue.go)
+			wp2, und := epilogueReleaseWorlds(bk, fd.Body)
+			if und != "" {
+				c.Undecided(r1, "genFunction: which registers are released", p.Pos(fd.Pos()), "not decided: "+und)
 			}
+			probs = append(probs, wp2...)
 			if ipush < 0 || ipush > irel {
 				probs = append(probs, "the results are not pushed (retained) before the registers are released: a returned reference that also lives in a register is freed before the caller receives it")
 			}
@@ -474,7 +464,19 @@ func runC12(c *Ctx) {
 			}
 		}
 		var probs []string
-		if len(existing) != 1 || existing[0].Name != "EmitPop" {
+		// existing register: the releasing EmitPop, except for a borrowed value (produced with reference counting
+		// disabled), whose register never owns anything and is popped without release under a test of that state
+		nOwning := 0
+		for _, e := range existing {
+			g := strings.Join(e.Guards, " && ")
+			switch {
+			case e.Name == "EmitPop":
+				nOwning++
+			case e.Name == "EmitPopNoRelease" && !(strings.Contains(g, "RcDisable") || strings.Contains(g, "none_rc_registers")):
+				probs = append(probs, "the path that stores into an existing register pops without release outside the rc-disabled case")
+			}
+		}
+		if nOwning != 1 {
 			probs = append(probs, "the path that stores into an existing register does not use the releasing EmitPop")
 		}
 		for _, e := range fresh {
